@@ -291,6 +291,14 @@ def _run_stream_init_sync(
         ) as outcome:
             try:
                 result: Stream[StreamState, Any] = getattr(app._server.implementation, method_name)(**kwargs)
+                # Implementation faults are answered like any other init
+                # failure (mirror of RpcServer._serve_stream) instead of
+                # escaping as an unhandled 500 that the access log records
+                # as a success.
+                if not isinstance(result, Stream):
+                    raise TypeError(f"Method '{method_name}' must return a Stream, got {type(result).__name__}")
+                if info.header_type is not None and result.header is None:
+                    raise TypeError(f"Method '{method_name}' declares header type but returned header=None")
             # No narrow (TypeError, pa.ArrowInvalid) -> 400 branch here; see the
             # matching note in _app_unary.py.  Request errors are already caught
             # above by the _read_request / _deserialize_params / _validate_params
